@@ -1322,8 +1322,16 @@ def op_lengths(ctx: Ctx, rid: str = "C01.l"):
                 axis = bool(dims) and isinstance(dims[0], (ast.Constant, ast.UnaryOp)) and ast.unparse(dims[0]) == "-1"
                 if not (diff and axis):
                     bad.append(f"{mname}: {ast.unparse(c)[:70]} (line {c.lineno})")
-    if n_sites < 4:
-        raise AnalysisError(f"OPEnv: inline norm sites lost ({n_sites} < 4)")
+    # each of the four places that measure a leg does so with a norm of a difference (or ops.get_distance): a leg measured some
+    # other way (torch.dist: one number for the whole batch) is a violation, not an analysis problem
+    for mname in ("_step", "_reset", "get_action_mask", "check_solution_validity"):
+        fi_ = env.cls.methods.get(mname)
+        if fi_ is None:
+            raise AnalysisError(f"OPEnv.{mname} not found")
+        has = any(isinstance(c, ast.Call) and ((isinstance(c.func, ast.Attribute) and c.func.attr == "norm") or (isinstance(c.func, ast.Name) and c.func.id in ("get_distance", "get_tour_length")))
+                  for c in ast.walk(fi_.node))
+        if not has:
+            bad.append(f"{mname}: no leg is measured by a norm of a difference / get_distance")
     ctx.ob(rid, "OPEnv:legs-are-norms-of-differences", not bad, env.cls.methods["_step"].loc,
            f"{n_sites} inline norms, each of a difference over dim=-1: {not bad}" + ("" if not bad else f" -- {bad[0]}"), construct="OPEnv:norm-of-a-non-difference")
     # stored budget
